@@ -566,11 +566,14 @@ func (env *ExecEnv) ifs() string {
 
 // expandPath performs pathname expansion.
 func (env *ExecEnv) expandPath(f *field) []string {
-	paths, err := pattern.Glob(f.pattern())
-	if err != nil || len(paths) == 0 {
-		return []string{f.unquote()}
+	// a field without an unquoted pattern character is not a pattern: it
+	// is left as it is, backslashes that come out of an expansion included
+	if f.glob() {
+		if paths, err := pattern.Glob(f.pattern()); err == nil && len(paths) != 0 {
+			return paths
+		}
 	}
-	return paths
+	return []string{f.unquote()}
 }
 
 // ParamExpError represents an error in parameter expansion.
@@ -605,6 +608,16 @@ func (f *field) join(s string, quote bool) {
 func (f *field) merge(t *field) {
 	f.b = append(f.b, t.b...)
 	f.quote = append(f.quote, t.quote...)
+}
+
+// glob reports whether f holds an unquoted "*", "?" or "[".
+func (f *field) glob() bool {
+	for i, s := range f.b {
+		if !f.quote[i] && strings.ContainsAny(s, "*?[") {
+			return true
+		}
+	}
+	return false
 }
 
 func (f *field) pattern() string {
